@@ -38,6 +38,7 @@ type Contract struct {
 	Trusted    bool // body not verified (external / assumed contract)
 	QuietFrame bool // modifies clause is checked and propagated, but no automatic frame facts are assumed at call sites (the contract states its frame explicitly)
 	SplitPaths bool // top-level if statements are followed path by path instead of merged
+	TailSplit  bool // a top-level if followed only by the final return is not merged: the postconditions are checked per branch
 	Pure       bool
 	Params     []GhostParam // for trusted externals declared with a signature
 	Results    []GhostParam
@@ -76,6 +77,8 @@ type GhostFunc struct {
 	Line    int
 	File    string
 	PkgPath string
+	NamedX  bool // xpred: like pred, but only in obligations of other packages
+	Named   bool // pred: translated to an applied function symbol with a defining axiom instead of being inlined
 }
 
 type Lemma struct {
@@ -107,7 +110,7 @@ type SpecFile struct {
 
 var clauseKw = map[string]bool{
 	"func": true, "requires": true, "ensures": true, "assigns": true, "modifies": true, "loop": true, "decreases": true,
-	"ghost": true, "after": true, "before": true, "uf": true, "lemma": true, "axiom": true, "trusted": true, "pure": true, "split-paths": true, "quietframe": true, "opaque": true,
+	"ghost": true, "after": true, "before": true, "uf": true, "lemma": true, "axiom": true, "trusted": true, "pure": true, "split-paths": true, "tail-split": true, "quietframe": true, "opaque": true, "pred": true, "xpred": true,
 	"sort": true, "closedtype": true, "immutable": true, "ghostvar": true, "ghostfield": true, "free": true, "extern": true, "assume-note": true, "end": true,
 }
 
@@ -262,6 +265,10 @@ func ParseSpecFile(path, pkgName, pkgPath string, sf *SpecFile) error {
 			if cur != nil {
 				cur.SplitPaths = true
 			}
+		case "tail-split":
+			if cur != nil {
+				cur.TailSplit = true
+			}
 		case "trusted":
 			if cur != nil {
 				cur.Trusted = true
@@ -319,13 +326,15 @@ func ParseSpecFile(path, pkgName, pkgPath string, sf *SpecFile) error {
 			default:
 				return fmt.Errorf("%s:%d: unknown loop clause %q", path, rc.line, sub)
 			}
-		case "ghost", "uf":
-			// ghost name(p T, q U) R = expr     |   uf name(p T) R
+		case "ghost", "uf", "pred", "xpred":
+			// ghost name(p T, q U) R = expr     |   uf name(p T) R   |   pred name(p T) R = expr
 			gf, err := parseGhost(rest, kw == "uf", path, rc.line)
 			if err != nil {
 				return err
 			}
 			gf.PkgPath = pkgPath
+			gf.Named = kw == "pred"
+			gf.NamedX = kw == "xpred"
 			if _, dup := sf.Ghosts[gf.Name]; dup {
 				return fmt.Errorf("%s:%d: duplicate ghost %s", path, rc.line, gf.Name)
 			}
